@@ -463,7 +463,10 @@ def check_transform_cache(ctx, rep, rule='C11.X'):
                 fn = c
                 while fn is not None and not isinstance(fn, ast.FunctionDef):
                     fn = getattr(fn, '_parent', None)
-                key = f"{m.name}::{fn.name if fn else '<module>'}::{norm_text(c)[:60]}"
+                cl = fn
+                while cl is not None and not isinstance(cl, ast.ClassDef):
+                    cl = getattr(cl, '_parent', None)
+                key = f"{m.name}::{cl.name + '.' if cl is not None else ''}{fn.name if fn else '<module>'}::{norm_text(c)[:60]}"
                 v = k.value
                 ok = isinstance(v, ast.Constant) and v.value == 0
                 if isinstance(v, ast.Name) and fn is not None:
